@@ -61,7 +61,9 @@ ExecReport simExec(const Case &c, bool linkedAuditHook) {
 bool attributable(const Op &op, Result &ref, std::string &why) {
     ExecOpts o;
     o.wallLimitSec = g_wallLimit;
+    refallocSweep();
     ref = execOp(REF, op, o);
+    refallocSweep();
     if (ref.skipped) {
         why = "harness precondition not met (output too large / no defined size)";
         return false;
@@ -77,6 +79,7 @@ bool attributable(const Op &op, Result &ref, std::string &why) {
         return false;
     }
     Result again = execOp(REF, op, o);
+    refallocSweep();
     if (!again.sameAs(ref)) {
         why = "reference execution is not repeatable";
         return false;
